@@ -180,6 +180,12 @@ func (e *Engine) globalValue(st *State, g *ssa.Global) Val {
 		}
 		// bring in the facts about constant objects (contents of literal tables)
 		st.assume(gs.facts...)
+		if m, ok := v.(VMap); ok && m.Conc != nil {
+			// a literal table: describe its contents in the map heaps at its constant reference
+			e.tableFacts(st, m)
+			m.Conc = nil
+			v = m
+		}
 		e.Assumptions["package-level table "+g.Pkg.Pkg.Name()+"."+g.Name()+" is immutable after init (checked: no store outside init in its package; exported tables could be modified by other packages)"] = true
 		return v
 	}
@@ -397,4 +403,39 @@ func (e *Engine) initState(pkg *ssa.Package) *globalState {
 	e.obs = saveObs
 	e.initGS = nil
 	return gs
+}
+
+// tableFacts states the contents of a constant map (built by the package initialiser) as axioms
+// over the initial map heaps, so that constant tables and map parameters are treated alike.
+func (e *Engine) tableFacts(st *State, m VMap) {
+	key := "table:" + m.Ref.Key()
+	if st.factSet[key] {
+		return
+	}
+	st.factSet[key] = true
+	pn, vns := mapHeapNames(m.K, m.V)
+	k := Var("tbl_k", IntS)
+	ph := Var(pn+"!0", HeapB)
+	e.heap(st, pn, HeapB)
+	pres := False
+	for i := len(m.Conc.Keys) - 1; i >= 0; i-- {
+		pres = Or(Eq(k, keyTerm(m.Conc.Keys[i])), pres)
+	}
+	sel := Select(Select(ph, m.Ref), k)
+	st.facts = append(st.facts, Forall([]*Term{k}, [][]*Term{{sel}}, Eq(sel, pres)))
+	for li, l := range leavesOf(m.V) {
+		vh := Var(vns[li]+"!0", heapSort(l.sort, true))
+		e.heap(st, vns[li], heapSort(l.sort, true))
+		var val *Term
+		if l.sort == BoolS {
+			val = False
+		} else {
+			val = Zero
+		}
+		for i := len(m.Conc.Keys) - 1; i >= 0; i-- {
+			val = Ite(Eq(k, keyTerm(m.Conc.Keys[i])), Flatten(m.Conc.Vals[i])[li], val)
+		}
+		vs := Select(Select(vh, m.Ref), k)
+		st.facts = append(st.facts, Forall([]*Term{k}, [][]*Term{{vs}}, Eq(vs, val)))
+	}
 }
